@@ -56,7 +56,20 @@ func build(fl string) *buildInfo {
 	if !ok {
 		return &buildInfo{err: "unknown flavor " + fl}
 	}
-	if b, err := os.ReadFile("/repo/go.sum"); err == nil {
+	repo := "/repo"
+	modfile := ""
+	if r := os.Getenv("VERIF_REPO"); r != "" && r != "/repo" {
+		// background sweeps run against a snapshot of the repository instead of /repo itself
+		repo = r
+		gm, _ := os.ReadFile(filepath.Join(root, "harness", "go.mod"))
+		alt := strings.Replace(string(gm), "=> /repo", "=> "+repo, 1)
+		modfile = filepath.Join(root, "harness", "go.alt.mod")
+		os.WriteFile(modfile, []byte(alt), 0o644)
+		if b, err := os.ReadFile(filepath.Join(repo, "go.sum")); err == nil {
+			os.WriteFile(filepath.Join(root, "harness", "go.alt.sum"), b, 0o644)
+		}
+	}
+	if b, err := os.ReadFile(filepath.Join(repo, "go.sum")); err == nil {
 		os.WriteFile(filepath.Join(root, "harness", "go.sum"), b, 0o644)
 	}
 	tool := f.GoTool
@@ -65,6 +78,9 @@ func build(fl string) *buildInfo {
 	}
 	try := func(tags string) (string, error) {
 		args := []string{"build", "-tags", tags}
+		if modfile != "" {
+			args = append(args, "-modfile="+modfile)
+		}
 		args = append(args, f.Flags...)
 		args = append(args, "-o", filepath.Join(root, "bin", "drv-"+fl), "./cmd/drv")
 		cmd := exec.Command(tool, args...)
